@@ -48,7 +48,13 @@ type Case struct {
 	Want   int64   `json:"want,omitempty"`   // duration: expected seconds
 	Idx    int     `json:"idx,omitempty"`    // group: index of the first instant (drives the rotations)
 	Us     []int64 `json:"us,omitempty"`     // group
+	Pad    int     `json:"pad,omitempty"`    // the unix second / duration is written with this many leading zeros (fixed-width decimal fields of a log)
+	Host   string  `json:"host,omitempty"`   // time zone of the process (time.Local) while the case runs; "" = as started (UTC in this sandbox)
 }
+
+// hostZones: the statement quantifies over instants and zone arguments; the zone the process itself runs in is
+// configuration that must not show in any result (the documented default zone is utc, not the local one).
+var hostZones = []string{"", "America/Los_Angeles", "Pacific/Auckland", "Asia/Kolkata", "Europe/London"}
 
 type zoneSpec struct {
 	Arg    string // tz argument as written in the template ("" = omitted)
@@ -78,6 +84,7 @@ type env struct {
 	zones  map[string]*time.Location
 	counts map[string]int64
 	ctx    expressions.KeyBuilderContextArray
+	host   string // process time zone in force (see Case.Host)
 }
 
 func newEnv(c *run.Ctx) *env {
@@ -171,6 +178,12 @@ func (e *env) eval(t string, in string, cached bool) (out string, problem string
 }
 
 func (e *env) fail(cs *Case, class, msg string) {
+	if cs.Host == "" && e.host != "" {
+		cs.Host = e.host
+	}
+	if cs.Host != "" {
+		msg += " [time zone of the process: " + cs.Host + "]"
+	}
 	b, _ := json.Marshal(cs)
 	e.c.Violation(class+":"+run.Hash64(string(b)), msg, cs)
 }
@@ -184,6 +197,14 @@ func looksLikeError(s string) bool {
 // ---------------------------------------------------------------- single evaluations
 
 func (e *env) runCase(cs *Case) {
+	if cs.Host != "" && e.host == "" {
+		if l, err := time.LoadLocation(cs.Host); err == nil {
+			old := time.Local
+			time.Local, e.host = l, cs.Host
+			e.count("cases_in_a_non_utc_process_zone", 1)
+			defer func() { time.Local, e.host = old, "" }()
+		}
+	}
 	switch cs.Op {
 	case "group":
 		z := e.loc(cs.Zone)
@@ -222,8 +243,19 @@ func (e *env) fields(cs *Case) (Fields, bool) {
 	return fieldsIn(cs.U, z), true
 }
 
+func padded(n int64, pad int) string {
+	s := strconv.FormatInt(n, 10)
+	if pad > 0 && n >= 0 {
+		s = strings.Repeat("0", pad) + s
+	}
+	return s
+}
+
 func (e *env) valueArg(cs *Case) (first, in string) {
-	s := strconv.FormatInt(cs.U, 10)
+	s := padded(cs.U, cs.Pad)
+	if cs.Pad > 0 {
+		e.count("zero_padded_decimal_inputs", 1)
+	}
 	if cs.Static {
 		return s, ""
 	}
@@ -497,7 +529,7 @@ func (e *env) opDurRT(cs *Case) {
 	n := cs.U
 	in := strconv.FormatInt(n, 10)
 	t := "{durationformat {0}}"
-	s, prob := e.eval(t, in, true)
+	s, prob := e.eval(t, padded(n, cs.Pad), true)
 	if prob != "" {
 		e.fail(cs, "durationformat-"+strings.SplitN(prob, ":", 2)[0], fmt.Sprintf("%s on %q: %s", t, in, prob))
 		return
@@ -628,6 +660,15 @@ func (e *env) instant(zone string, u int64, idx int) {
 			continue
 		}
 		e.opTimeAttr(&Case{Op: "timeattr", Zone: zone, U: u, Arg: a})
+	}
+	// the same second written as a zero-padded decimal field (still decimal: 0000000060 is sixty), rotating
+	if u >= 0 {
+		pad := 1 + idx%4
+		e.opTimeFormat(&Case{Op: "timeformat", Zone: zone, U: u, Arg: namedFormats[(idx+7)%len(namedFormats)], Pad: pad})
+		e.opTimeFormat(&Case{Op: "timeformat", Zone: zone, U: u, Arg: namedFormats[(idx+3)%len(namedFormats)], Pad: pad, Static: true})
+		if a := attrs[(idx+1)%len(attrs)]; !(a == "quarter" && quarterKnown && f.M%3 == 0) {
+			e.opTimeAttr(&Case{Op: "timeattr", Zone: zone, U: u, Arg: a, Pad: pad})
+		}
 	}
 	// literal (compile-time evaluated) variants, rotating
 	e.opTimeFormat(&Case{Op: "timeformat", Zone: zone, U: u, Arg: namedFormats[idx%len(namedFormats)], Static: true})
@@ -805,7 +846,7 @@ func Run(c *run.Ctx) {
 		for at := 0; at < len(us); at += groupSize {
 			end := min(at+groupSize, len(us))
 			if c.Mine(gi) {
-				cs := &Case{Op: "group", Zone: zs.Arg, Idx: at, Us: us[at:end]}
+				cs := &Case{Op: "group", Zone: zs.Arg, Idx: at, Us: us[at:end], Host: hostZones[(at/groupSize)%len(hostZones)]}
 				c.Begin(cs, 120*time.Second)
 				before := e.counts["comparisons"]
 				e.runCase(cs)
@@ -889,6 +930,9 @@ func durations(e *env, gi *int) {
 	for _, n := range ns {
 		if c.Mine(*gi) {
 			cs := &Case{Op: "durrt", U: n}
+			if n >= 0 && *gi%3 == 0 {
+				cs.Pad = 1 + *gi%5
+			}
 			c.Begin(cs, 60*time.Second)
 			c.Nontrivial("durrt", strconv.FormatInt(n, 10))
 			e.runCase(cs)
